@@ -17,6 +17,8 @@ theorem num_int (z : Int) : (Num.int z : ℝ) = (z : ℝ) := by
   | ofNat n => simp [Num.int]
   | negSucc n => simp [Num.int, Int.negSucc_eq]
 
+theorem depth_pos {d : Nat} (hd : d = 8 ∨ d = 16) : 1 ≤ d := by omega
+
 /-- the clip as the source does it: `a[a < cmin] = cmin`, then `a[a > cmax] = cmax` -/
 noncomputable def clipSeq (cmin cmax v : ℝ) : ℝ :=
   if cmax < (if v < cmin then cmin else v) then cmax else (if v < cmin then cmin else v)
